@@ -333,6 +333,32 @@ Proof.
   - exact (parents_fields _ _ F4).
 Qed.
 
+(* ... and that holds whichever fields travel as VOCAB tokens (any negotiated table) *)
+Lemma bytestring_ok_enc_of_le vocab lim b : blen b <= lim -> bytestring_ok_enc vocab lim b = true.
+Proof.
+  intros H. unfold bytestring_ok_enc, bytestring_taster_accepts_vocab, token_size_rejects, bytestring_object_rejects, rejects.
+  rewrite Z.gtb_ltb. destruct (lim <? blen b) eqn:E; [apply Z.ltb_lt in E; lia|]. destruct (vocab b); reflexivity.
+Qed.
+
+Theorem failure_fits_any_encoding unsafe e vocab :
+  exists s, get_state unsafe e = Ok s /\ failure_constraint_ok_enc vocab s = true.
+Proof.
+  unfold get_state. rewrite render_total.
+  destruct (trunc_field_spec (rendered e) trunc_limit_value ltac:(vm_compute; reflexivity)) as (bv & E1 & L1 & _). rewrite E1.
+  destruct (trunc_field_spec (e_type e) trunc_limit_type ltac:(vm_compute; reflexivity)) as (bt & E2 & L2 & _). rewrite E2.
+  destruct (trunc_field_spec (elide (if unsafe then e_stack e else default_traceback)) trunc_limit_traceback ltac:(vm_compute; reflexivity))
+    as (btb & E3 & L3 & _). rewrite E3.
+  destruct (map_res_spec (e_parents e) trunc_limit_parents ltac:(vm_compute; reflexivity)) as (ps & E4 & F4). rewrite E4.
+  eexists. split; [reflexivity|]. unfold failure_constraint_ok_enc. cbn [s_type s_value s_traceback s_parents].
+  rewrite (bytestring_ok_enc_of_le vocab fc_limit_type bt) by (unfold fc_limit_type; unfold trunc_limit_type in L2; lia).
+  rewrite (bytestring_ok_enc_of_le vocab fc_limit_value bv) by (unfold fc_limit_value; unfold trunc_limit_value in L1; lia).
+  rewrite (bytestring_ok_enc_of_le vocab fc_limit_traceback btb) by (unfold fc_limit_traceback; unfold trunc_limit_traceback in L3; lia).
+  cbn [andb]. replace (forallb (bytestring_ok_enc vocab fc_limit_parents) ps) with true; [reflexivity|].
+  symmetry. clear E4. revert F4. generalize (e_parents e). induction ps as [|b ps IH]; intros l F; [reflexivity|].
+  inversion F as [|p b' l' ps' [Lb _] F']; subst. cbn [forallb]. rewrite (IH _ F').
+  rewrite bytestring_ok_enc_of_le; [reflexivity|]. unfold fc_limit_parents; unfold trunc_limit_parents in Lb; lia.
+Qed.
+
 (* every transmitted field is itself well-formed UTF-8 (so six.ensure_str on the receiving side cannot fail) *)
 Lemma field_is_utf8 orig lim b : wf_text orig -> field_of orig lim b -> exists t, wf_text t /\ b = utf8 t.
 Proof.
